@@ -6,7 +6,7 @@ from core import hx
 TRUSTED = [
     "Lean 4.33 kernel; axioms propext, Classical.choice, Quot.sound only",
     "Model/Bf3.lean, Model/Crypto.lean tied to the code by correspondence (writer bytes, reader results for encrypted components)",
-    "read_decrypts uses CryptoInv (adapter over invertible AES: C16)",
+    "read_decrypts uses CryptoInv, proved for the bundled AES plug-in in C16 (read_decrypts_aes)",
     "harness: independent AES/CBC + independent layout parser check the stored bytes of the real writer",
 ]
 ASSUMPTIONS = [
